@@ -9,6 +9,20 @@ endpoint's semantic snapshot (delivered messages, reassembly contexts, send
 resolution, key, token, status, liveness clock, both receive windows): for a datagram
 that is not a prefix-extension of a genuine datagram of this session it must be
 unchanged.  Genuine datagrams are the positive control (they must change it).
+
+A prefix-extension D = G + X of a genuine datagram G (an on-path attacker appends bytes
+to a datagram in flight: well-formed CRC packets of every type x count, packets sealed
+under his own key, random bytes) is judged by the ExtensionMonitor: the peer produced G
+and nothing else, so processing D must be processing G - every message dispatched during
+the receive is one of G's messages, the receive windows move to G's numbers only, only
+sends named by G's ack fields resolve, and before a key exists (G = the hello) no
+application message is queued.
+
+The window between key agreement and the first encrypted datagram of the peer is a
+connection state of its own: the client (server hello delivered, every later server
+datagram withheld) and the server's half-open connection (challenge response withheld)
+are presented the forgery classes plus the session's own genuine hello body under fresh
+headers.
 """
 import struct
 
@@ -17,7 +31,8 @@ from mon.core.util import Counter, h64, rng
 from mon.engines import adversary as A
 from mon.engines import lockstep as L
 from mon.engines import traffic as T
-from mon.engines.monitors import AuthMonitor
+from mon.engines.monitors import AuthMonitor, snapshot, snap_diff
+from mon.models.ring import ring_add
 
 ID = "C01"
 LEVEL = "fault_enumeration"
@@ -28,6 +43,114 @@ def plan(tier, seed):
     if tier == "quick":
         return [{"tier": tier, "seed": seed, "shard": i, "n": 2, "subprocess": True} for i in range(12)]
     return [{"tier": tier, "seed": seed, "shard": i, "n": 140, "subprocess": True} for i in range(32)]
+
+
+class ExtensionMonitor(object):
+    """D = G + X: G is a datagram recorded at the honest peer's tap for this session, X are appended bytes the peer never
+    produced.  Authentic is G, not D: whatever the endpoint does with D must be explained by G alone (the monitor's own decode
+    of G says which messages, sequence numbers and ack fields those are)."""
+
+    def __init__(self, run):
+        self.run = run
+        self.w = run.world
+        self.tap = run.tap
+        self.c = run.c
+        self.cur = None
+        self.judged = Counter()
+        run.tap.listeners.append(self)
+        CB = run.C.ConnectionBase
+        self._CB = CB
+        self._prev = CB._recv_message
+        mon = self
+
+        def _recv_message(conn, pkt_typ, msgseq, msg, _o=self._prev):
+            cur = mon.cur
+            if cur is not None and cur["conn"] is conn:
+                cur["msgs"].append((int(msgseq), getattr(pkt_typ, "value", pkt_typ), bytes(msg)))
+            return _o(conn, pkt_typ, msgseq, msg)
+        CB._recv_message = _recv_message
+
+    def close(self):
+        self._CB._recv_message = self._prev
+
+    def before_recv(self, e, datagram):
+        conn = e.conn
+        key = conn.session_key_bytes
+        G = self.tap.genuine_for(e, key, datagram)
+        if G is None or len(G) == len(datagram):
+            self.cur = None
+            return
+        self.cur = {"conn": conn, "G": G, "key": key, "msgs": [], "acked": [],
+                    "snap": snapshot(conn, (e.delivered_n, e.callbacks_n))}
+
+    def resolved(self, e, seq, kind):
+        cur = self.cur
+        if cur is not None and cur["conn"] is e.conn and kind == "acked":
+            cur["acked"].append(int(seq))
+
+    def after_recv(self, e, datagram, res):
+        cur, self.cur = self.cur, None
+        if cur is None or cur["conn"] is not e.conn:
+            return
+        conn = e.conn
+        G, key = cur["G"], cur["key"]
+        dec = L.decode_datagram(G, key)
+        if not dec.ok:
+            self.c.inc("c01_extended_genuine_undecodable")
+            return
+        keystate = "keyed" if key is not None else "hello"
+        self.judged.inc("%s|%s" % (e.role, keystate))
+        self.c.inc("c01_extended_%s_judged_%s" % (keystate, e.role))
+        if res:
+            self.c.inc("c01_extended_genuine_accepted")
+        snap0 = cur["snap"]
+        snap1 = snapshot(conn, (e.delivered_n, e.callbacks_n))
+        origin = self.w.origins.get(datagram, "network")
+        problems = []
+        # (1) every message dispatched during this receive is one of G's
+        allowed = [(int(s), int(t), bytes(p)) for s, t, p in dec.msgs]
+        foreign = []
+        for m in cur["msgs"]:
+            if m in allowed:
+                allowed.remove(m)
+            else:
+                foreign.append(m)
+        if foreign:
+            problems.append("dispatched %d message(s) that are not in the genuine datagram (first: seq %d type %d, %d bytes)" % (
+                len(foreign), foreign[0][0], foreign[0][1], len(foreign[0][2])))
+        # (2) the receive windows move to G's numbers only
+        pk0, pk1 = snap0[11][0], snap1[11][0]
+        if pk1 != pk0 and pk1 != dec.seq:
+            problems.append("datagram window top went %d -> %d, the genuine datagram is seq %d" % (pk0, pk1, dec.seq))
+        mg0, mg1 = snap0[12][0], snap1[12][0]
+        if mg1 != mg0 and mg1 not in [int(s) for s, _t, _p in dec.msgs]:
+            problems.append("message window top went %d -> %d, the genuine datagram carries message seqs %s" % (mg0, mg1, [int(s) for s, _t, _p in dec.msgs][:4]))
+        # (3) only sends named by G's ack fields resolve
+        named = set()
+        if dec.ack:
+            named.add(dec.ack)
+            for d in range(1, 33):
+                if dec.ack_bits & (0x80000000 >> (d - 1)):
+                    named.add(ring_add(dec.ack, -d))
+        stray = [s for s in cur["acked"] if s not in named]
+        if stray:
+            problems.append("resolved pending datagram(s) %s as acked, the genuine header names ack=%d bits=%08x" % (stray[:4], dec.ack, dec.ack_bits))
+        # (4) a rejected datagram has no effect at all (stats.dropped is not part of the snapshot)
+        if not res and snap0 != snap1:
+            problems.append("was rejected but changed %s" % snap_diff(snap0, snap1))
+        # (5) before a key exists nothing but the hello is processed: no application message is queued or delivered
+        delivered = snap0[0] != snap1[0] or snap0[-2] != snap1[-2]
+        if key is None and delivered:
+            self.run.report("C01", "prekey-application-message-delivered",
+                            "%s endpoint without a key queued/delivered %d application message(s) while processing a genuine hello with %d appended bytes (%s): %s" % (
+                                e.role, len(snap1[0]) - len(snap0[0]), len(datagram) - len(G), origin, "; ".join(problems) or "incoming_messages changed"),
+                            {"origin": origin, "role": e.role, "phase": self.w.phase})
+        elif problems:
+            self.run.report("C01", "bytes-appended-to-genuine-datagram-processed",
+                            "%s endpoint (%s): a genuine %s datagram with %d appended bytes (%s) - %s; changed %s" % (
+                                e.role, "holding a key" if key is not None else "without a key", L.PKT_NAMES.get(dec.ptype), len(datagram) - len(G), origin,
+                                "; ".join(problems), snap_diff(snap0, snap1)),
+                            {"origin": origin, "role": e.role, "phase": self.w.phase})
 
 
 class Attack(object):
@@ -93,6 +216,52 @@ class Attack(object):
         self.r.shuffle(cand)
         return cand[:n]
 
+    def appendix(self, direction, cl):
+        """what an on-path attacker appends behind a genuine datagram travelling in `direction`: a well-formed CRC packet (every
+        type x count, application messages inside, numbers that are fresh for the target and ack fields naming what it has
+        pending), a packet sealed under the attacker's key, or random bytes"""
+        r = self.r
+        now = self.w.clock.now
+        tconn = cl.udp.conn if direction == "s2c" else self.w.server_conn(cl.addr)
+        pend = sorted(int(s) for s in tconn.pending_acks) if tconn is not None else []
+        ack = pend[-1] if pend and r.random() < 0.8 else r.randint(1, 65535)
+        bits = r.choice([0, 0xFFFFFFFF, r.getrandbits(32)])
+        if tconn is not None:
+            fresh = (int(tconn.bitfield_pkt.current_seqnum) + r.randint(2, 30)) % 65535 + 1
+            msgseq = (int(tconn.bitfield_msg.current_seqnum) + r.randint(2, 40)) % 65535 + 1
+        else:
+            fresh, msgseq = r.randint(2, 60000), r.randint(2, 60000)
+        app = L.make_payload(99, r.randrange(1 << 30), r.choice([12, 40, 200]))
+        roll = r.random()
+        if roll < 0.75:
+            forged = A.Forger(r, direction).forged(now, fresh, ack, bits, msgseq, app)
+            if roll < 0.5:
+                # the deciding family: packets that carry application messages
+                forged = [x for x in forged if x[0].split("=")[1][0] in "67" and x[0].endswith(("count=1", "count=2", "count=3"))]
+            label, x = r.choice(forged)
+            return "crc-packet," + label.split(":", 1)[1], x
+        if roll < 0.87:
+            ptype = r.choice((3, 4, 5, 6, 7))
+            return "attacker-key-packet,type=%d" % ptype, A.seal(self.attacker_key, direction, ptype, fresh, ack, bits, [(msgseq, ptype, app)], int(now))
+        k = r.choice((1, 4, 16, 64, 200))
+        return "random+%d" % k, r.randbytes(k)
+
+    def extender(self, cl, p_other):
+        """a network filter: the on-path attacker appends to the genuine hellos of cl's handshake (always) and to its other
+        datagrams in flight (with probability p_other), in both directions"""
+        def tamper(direction, addr, d, info):
+            if addr != cl.addr or len(d) < 24:
+                return None
+            hello = (direction == "c2s" and d[12] == 1) or (direction == "s2c" and d[12] == 2)
+            if not hello and self.r.random() >= p_other:
+                return None
+            label, x = self.appendix(direction, cl)
+            if len(d) + len(x) > self.run.C.Packet.RECV_SIZE:
+                return None                   # what the receiving socket reads in one go (MTU + 512): an IP datagram may be larger than the MTU
+            self.injected.inc(("server|" if direction == "c2s" else "client|") + "extension")
+            return ("replace", [(d + x, "extension:%s+%s" % ("hello" if hello else "keyed", label))])
+        return tamper
+
     def classes_for(self, direction, cl, conn, heavy):
         """forgery classes against one endpoint.  direction = direction of travel toward the target"""
         r = self.r
@@ -144,6 +313,7 @@ def history(cfg, case, out):
                ctxt_setup=lambda ctxt: ctxt.setConnectionTimeout(30.0)) as run:
         w = run.world
         auth = AuthMonitor(w, run.tap, run.report)
+        ext = ExtensionMonitor(run)
         run.report.context = {"case_key": key}
         atk = Attack(run, r, out)
         w.net.set(c2s=L.Policy(loss=0.03, delay=(0.004, 0.02)), s2c=L.Policy(loss=0.03, delay=(0.004, 0.02)))
@@ -319,6 +489,14 @@ def history(cfg, case, out):
             hello2 = atk.genuine("c2s", hv2.addr, n=1, pick="any", types=(1,))
             if hello2:
                 forged2.append(("replay:own-hello", hello2[0]))
+                # the victim's own genuine hello body under fresh headers (the server holds the key, the client's first encrypted
+                # datagram - the challenge response - is still under way)
+                dec2 = L.decode_datagram(hello2[0], None)
+                if dec2.ok and dec2.msgs:
+                    for k in range(3):
+                        forged2.append(("forged:rewrapped-genuine-hello", A.forge_crc("c2s", 1, r.randint(2, 60000), r.choice([1, int(tc2.seq_sending), r.randint(1, 65535)]),
+                                                                                    r.choice([0, 0xFFFFFFFF]), [(r.choice([dec2.msgs[0][0], r.randint(2, 60000)]), 1, dec2.msgs[0][2])], now_)))
+                    run.c.inc("c01_rewrapped_hello_to_half_open_server")
             for label, d in forged2:
                 w.offer_server(hv2.addr, d, label)
                 atk.injected.inc("server|" + label.split("@")[0].split(":")[0])
@@ -494,6 +672,91 @@ def history(cfg, case, out):
                         kicked[0].status,), {"origin": "forged", "role": "server", "phase": w.phase})
         w.handler.on["message"].remove(kicker)
 
+        # ---------- phase: the client holds the session key but has not yet seen an encrypted datagram of the server (the server hello
+        #            arrived, everything behind it is still under way): forgeries of every class, and the genuine server hello body of
+        #            THIS session under fresh headers (new datagram / message numbers, ack fields naming the client's pending sends)
+        w.phase = "client-keyed-before-first-server-datagram"
+        w.net.heal(0.002)
+        for round_ in range(2 if heavy else 1):
+            hw = w.add_client()
+            hw.updates_per_step = 2
+            gate = lambda direction, addr, d, info, _c=hw: "drop" if (direction == "s2c" and addr == _c.addr and len(d) >= 20 and d[12] != 2) else None
+            w.net.filters.append(gate)
+            hw.connect()
+            w.run_until(lambda ww: hw.udp.conn is not None and hw.udp.conn.session_key_bytes is not None, 60)
+            cw = hw.udp.conn
+            if cw is not None and cw.session_key_bytes is not None:
+                for _ in range(3):
+                    run.app.send(hw, "client", 48, r.choice([0, -1]), with_cb=True)
+                    w.step()
+                items = atk.classes_for("s2c", hw, cw, False)
+                items = r.sample(items, min(len(items), 36))
+                for gd in atk.genuine("s2c", hw.addr, n=1, pick="any", types=(2,)):
+                    dec = L.decode_datagram(gd, None)
+                    if not (dec.ok and dec.msgs):
+                        continue
+                    hp = dec.msgs[0][2]
+                    pend = sorted(int(s) for s in cw.pending_acks)
+                    for k in range(8):
+                        seq = r.choice([dec.seq % 65535 + 1, (dec.seq + r.randint(2, 30)) % 65535 + 1, r.randint(1, 65535)])
+                        ack = pend[-1] if pend and k % 4 != 3 else r.randint(1, 65535)
+                        mseq = r.choice([dec.msgs[0][0], dec.msgs[0][0] % 65535 + 1, r.randint(1, 65535)])
+                        items.append(("forged:rewrapped-genuine-hello", A.forge_crc("s2c", 2, seq, ack, r.choice([0, 0xFFFFFFFF, r.getrandbits(32)]), [(mseq, 2, hp)], int(w.clock.now))))
+                    # ... as one of several messages, and with one bit of the signed body changed
+                    items.append(("forged:rewrapped-genuine-hello,count=2", A.forge_crc("s2c", 2, (dec.seq + 3) % 65535 + 1, pend[-1] if pend else 1, 0xFFFFFFFF,
+                                                                                      [(dec.msgs[0][0] % 65535 + 1, 2, hp), (dec.msgs[0][0] % 65535 + 2, 6, L.make_payload(99, r.randrange(1 << 30), 24))], int(w.clock.now))))
+                    fb = bytearray(hp)
+                    fb[r.randrange(len(fb))] ^= 1 << r.randrange(8)
+                    items.append(("forged:rewrapped-hello-bitflip", A.forge_crc("s2c", 2, (dec.seq + 4) % 65535 + 1, pend[-1] if pend else 1, 0xFFFFFFFF, [(dec.msgs[0][0] % 65535 + 1, 2, bytes(fb))], int(w.clock.now))))
+                    items.append(("replay:own-hello", gd))
+                r.shuffle(items)
+                in_window = int(cw.stats.received) <= 1
+                reached0 = sum(n for k, n in auth.by_class.items() if k.startswith("client|keyed|forged:rewrapped"))
+                atk.present(items, "client", hw, per_tick=2)
+                reached = sum(n for k, n in auth.by_class.items() if k.startswith("client|keyed|forged:rewrapped")) - reached0
+                if in_window and int(cw.stats.received) <= 1 and reached:
+                    run.c.inc("c01_rewrapped_hello_reached_client_in_key_window", reached)
+            if gate in w.net.filters:
+                w.net.filters.remove(gate)
+            # the withheld datagrams are gone; the session itself goes on: one message each way
+            rec = run.app.send(hw, "client", 48, -1, with_cb=True)
+            if w.run_until(lambda ww: bool(run.app.deliveries.get(rec["id"])), 120) and run.sconn(hw) is not None:
+                rec2 = run.app.send(run.sconn(hw), "server", 48, -1, with_cb=True)
+                if w.run_until(lambda ww: bool(run.app.deliveries.get(rec2["id"])), 120):
+                    run.c.inc("c01_session_went_on_after_key_window")
+            hw.udp.disconnect()
+            w.step(5)
+            w.remove_client(hw)
+
+        # ---------- phase: an on-path attacker APPENDS to genuine datagrams in flight: to both hellos of a handshake (the endpoints hold
+        #            no key / have just derived it), then to the encrypted datagrams of the session.  The ExtensionMonitor judges
+        w.phase = "appended-to-genuine"
+        w.net.heal(0.002)
+        for round_ in range(6 if heavy else 4):
+            hx = w.add_client()
+            hx.updates_per_step = 2
+            tamper = atk.extender(hx, 0.35)
+            w.net.filters.append(tamper)
+            try:
+                w.connect_client(hx, max_ticks=240, attempts=3)
+                run.c.inc("c01_handshake_completed_with_extended_hellos")
+            except L.Inconclusive:
+                run.c.inc("c01_handshake_with_extended_hellos_failed")
+            else:
+                for _ in range(14):
+                    run.app.send(hx, "client", r.choice([24, 60, 300]), r.choice([0, -1]), with_cb=True)
+                    sx = run.sconn(hx)
+                    if sx is not None:
+                        run.app.send(sx, "server", r.choice([24, 60, 300]), r.choice([0, -1]), with_cb=True)
+                    w.step()
+            if tamper in w.net.filters:
+                w.net.filters.remove(tamper)
+            w.step(6)
+            if hx.udp.conn is not None:
+                hx.udp.disconnect()
+            w.step(5)
+            w.remove_client(hx)
+
         # ---------- phase: after disconnect (client side: the UdpClient keeps calling update())
         w.phase = "disconnected"
         a.udp.disconnect()
@@ -520,6 +783,7 @@ def history(cfg, case, out):
         for t, caddr, dest, nbytes, origin in w.misdirected[:3]:
             run.report("C01", "client-redirected-by-unauthenticated-datagram", "client %s addressed a datagram of %d bytes to %s instead of the server after reading a %s datagram" % (
                 caddr, nbytes, dest, origin), {"origin": str(origin), "role": "client", "phase": "any"})
+        ext.close()
         # ---------- bookkeeping
         for v in run.report.violations:
             if v["property"] == "C01":
@@ -530,6 +794,7 @@ def history(cfg, case, out):
         out["counters"].merge({"viol:" + k: n for k, n in run.report.counts.items() if k.startswith("C01")})
         out["counters"].merge({"inj:" + k: n for k, n in atk.injected.items()})
         out["counters"].merge({"reached:" + k: n for k, n in auth.by_class.items()})
+        out["counters"].merge({"extended:" + k: n for k, n in ext.judged.items()})
         out["counters"].inc("client_update_raised_on_garbage(observation)", run.c.get("client_update_raised", 0))
         out["distinct"].update(h64(k, d) for d, k in w.origins.items() if k not in ("dup",))
         if len(out["samples"]) < 3:
@@ -557,7 +822,10 @@ def finish(tier, seed, results):
                          "inj:server|truncation", "inj:server|header-rewrite-crc", "inj:server|wrong-key", "inj:client|wrong-key",
                          "inj:server|reflection", "inj:server|random", "c01_continuity_checks", "c01_sessions_survived_silent_phase", "c01_forged_queued_ahead_of_genuine",
                          "c01_genuine_processed_despite_forgery_ahead", "c01_kicked_in_handle_message", "c01_forged_at_kicked_connection", "c01_rewrapped_hello_to_closed_client",
-                         "client_datagrams_from_foreign_address", "c01_handshake_completed_despite_flood", "c01_handshake_completed_despite_forgeries_from_own_address"], inconclusive)
+                         "client_datagrams_from_foreign_address", "c01_handshake_completed_despite_flood", "c01_handshake_completed_despite_forgeries_from_own_address",
+                         "c01_rewrapped_hello_reached_client_in_key_window", "c01_rewrapped_hello_to_half_open_server", "c01_session_went_on_after_key_window",
+                         "inj:server|extension", "inj:client|extension", "c01_extended_hello_judged_server", "c01_extended_hello_judged_client",
+                         "c01_extended_keyed_judged_server", "c01_extended_keyed_judged_client", "c01_extended_genuine_accepted"], inconclusive)
     cov = {
         "evaluations": m["evaluations"],
         "distinct_nontrivial": m["distinct_nontrivial"],
@@ -567,7 +835,10 @@ def finish(tier, seed, results):
                 "{0,1,2,3,255} x inner message types with fresh sequence numbers and ack fields naming really pending datagrams; every "
                 "single-bit flip and every truncation of short genuine datagrams (all positions in the 'heavy' histories, samples "
                 "otherwise); header rewrites with and without a recomputed CRC; ciphertext under the attacker's key and under "
-                "another live session's key; reflections; random bytes. distinct = distinct (class, datagram bytes)",
+                "another live session's key; reflections; random bytes; the session's own genuine hello body under fresh headers, "
+                "towards the client between its key agreement and the first encrypted server datagram, towards the server's half-open "
+                "connection, and after close; extensions = a genuine datagram in flight (both hellos, encrypted datagrams) with an "
+                "appended CRC packet of any type x count / attacker-sealed packet / random bytes. distinct = distinct (class, datagram bytes)",
         "fault_classes": sorted(k for k in m["counters"] if k.startswith("inj:")),
         "reached_recv_datagram_by_role_keystate_class": {k[8:]: v for k, v in m["counters"].items() if k.startswith("reached:")},
         "effects_seen": {k: v for k, v in m["counters"].items() if k.startswith("viol:")},
@@ -576,7 +847,9 @@ def finish(tier, seed, results):
     }
     return {"coverage": cov, "inconclusive": inconclusive,
             "assumptions": ["authentic = some datagram recorded at the honest peer's tap for this session is a prefix of the presented "
-                            "datagram (an extension of a genuine datagram counts as that datagram)",
+                            "datagram; an extension G + X of a genuine datagram counts as G and ONLY as G: the messages dispatched, the window "
+                            "moves and the acks taken while it is processed must be those of G (monitor's own decode of G), and without a key "
+                            "no application message may be queued",
                             "AES-GCM/ECDSA themselves are trusted; what is monitored is that every forgery class we can construct is rejected",
                             "UdpClient.update() raising on garbage (header parse) is recorded as an observation, not a C01 violation",
                             "before a key exists a well-formed single hello of the expected kind may be processed (C02 decides acceptance)"]}
